@@ -1,5 +1,9 @@
 //! hvc — one binary, one sub-command per property. See /verif/DESIGN.md.
+mod alloc;
 mod props;
+
+#[global_allocator]
+static GLOBAL: alloc::Counting = alloc::Counting;
 mod plans;
 mod report;
 mod sched;
@@ -12,6 +16,9 @@ fn main() {
     if args.len() < 2 {
         eprintln!("usage: hvc <C01..C20> [--tier quick|thorough]");
         std::process::exit(2);
+    }
+    if args[1] == "C03-worker" {
+        props::c03::worker(&args[2..]);
     }
     if args[1] == "replay" {
         std::panic::set_hook(Box::new(|_| {}));
@@ -45,6 +52,7 @@ fn main() {
     let cx = Ctx::new(&id, tier);
     match id.as_str() {
         "C02" => props::c02::run(cx),
+        "C03" => props::c03::run(cx),
         "C05" => props::c05::run(cx),
         "C07" => props::c07::run(cx),
         "C08" => props::c08::run(cx),
